@@ -253,6 +253,40 @@ def main() -> int:
                                       "in_pool": got[:500], "alone": solo[i][:500],
                                       "spec": "analyses running concurrently in other threads with their own providers do not interfere"})
 
+    # runs that fail part-way INSIDE the extraction of a statement (not at parsing / dispatch): whatever they had collected
+    # must not show up in a later run of the same thread, dialect by dialect
+    def outcome(sql, dialect, provider):
+        try:
+            lr = LineageRunner(sql, dialect=dialect, metadata_provider=provider)
+            lr._eval()
+            return full_result(lr)
+        except Exception as e:
+            return "RAISED:" + type(e).__name__
+    probes = ["select z from s.t2", "select * from s.t9", "insert into s.o select a from s.t3", "select a from s.t3 union all select b from s.t4",
+              "create table s.n as select * from s.t2"]
+    failing = [
+        # two write targets in one query block: SQLLineageException raised by end_of_query_cleanup after tables and columns were collected
+        ("select a into s.t1 from s.x union all select b into s.t2 from s.y", None),
+        ("select a into s.t1 from s.x", None),
+        # the provider raises while a top-level SELECT * / SELECT INTO is being expanded
+        ("select * from s.leak", 1), ("select * into s.tgt1 from s.leak", 1), ("select * from s.leak p join s.leak2 q on 1 = 1", 2),
+        ("insert into s.k select * from s.leak", 1), ("select a from s.leak union all select * from s.leak2", 1),
+    ]
+    for dlc in ("ansi", "postgres", "tsql", "mysql", "sparksql"):
+        before = [outcome(p, dlc, DummyMetaDataProvider({"s.zz": ["q"]})) for p in probes]
+        for fsql, fail_at in failing:
+            prov = FaultyProvider({"s.zz": ["q"], "s.leak": ["a", "b"], "s.leak2": ["c"]}, fail_at) if fail_at else DummyMetaDataProvider({"s.zz": ["q"]})
+            fo = outcome(fsql, dlc, prov)
+            for p, want in zip(probes, before):
+                ck.count()
+                dist["mid_extraction_failures"] = dist.get("mid_extraction_failures", 0) + 1
+                got = outcome(p, dlc, DummyMetaDataProvider({"s.zz": ["q"]}))
+                if fo.startswith("RAISED"):
+                    ck.nontriv(("mid-extraction", dlc, fsql, p))
+                if got != want:
+                    spec_failures.append({"suite": "after-failure-inside-extraction", "dialect": dlc, "failed_run": fsql, "failed_run_outcome": fo,
+                                          "sql": p, "after_failure": got[:500], "before": want[:500],
+                                          "spec": "a run that failed part-way leaves nothing behind for later runs"})
     # deterministic interleavings: run A is parked inside a provider lookup (after it has learnt tables from its own
     # earlier statements) while run B, in another thread with its own provider, runs from start to end
     class Pausing(DummyMetaDataProvider):
@@ -325,7 +359,7 @@ def main() -> int:
         ck.violation({"broken": "proof obligations of Props/C12.v", "detail": ck.broken_obligation}, "proof", no_input=not spec_failures)
     return ck.finish(rule="histories of 2-4 scripts (1-4 abstract statements each: CREATE TABLE AS SELECT * / named columns, bare SELECT, "
                           "unparsable or unsupported statement at every position) on one shared provider x 3 base metadata (incl. a falsy provider); "
-                          "provider raising at its j-th lookup for every j; shared default provider; shuffled corpus history; 16-thread pool; 12 deterministic two-thread interleavings (run A parked inside a provider lookup while run B runs); "
+                          "provider raising at its j-th lookup for every j; shared default provider; shuffled corpus history; 16-thread pool; runs failing inside extraction (two write targets, provider fault during star expansion) x 5 dialects x 5 probes; 12 deterministic two-thread interleavings (run A parked inside a provider lookup while run B runs); "
                           "non-trivial = distinct (metadata, history)")
 
 
